@@ -14,6 +14,7 @@ import (
 	"fmt"
 	"os"
 	"path/filepath"
+	"strings"
 	"testing/fstest"
 
 	"github.com/tetratelabs/wazero"
@@ -208,6 +209,76 @@ func otherMountsStage() {
 			} else {
 				rep.Count("mounts-vanish:ok")
 			}
+		}
+		// refused calls leave descriptors USABLE: a call that answers an errno has "done nothing" - the descriptors it
+		// named must answer their probes (fd_filestat_get, fd_fdstat_get, fd_readdir from 0, fd_tell / fd_sync) exactly as
+		// before, not only be present in the table (a refused fd_renumber onto a pre-open, reads and writes on a directory,
+		// size changes on a directory, a renumber from a pre-open, ...)
+		for mi, mk := range []struct {
+			name string
+			fsc  func(d string) wazero.FSConfig
+		}{
+			{"WithDirMount", func(d string) wazero.FSConfig { return wazero.NewFSConfig().WithDirMount(d, "/") }},
+			{"WithFSMount(os.DirFS)", func(d string) wazero.FSConfig { return wazero.NewFSConfig().WithFSMount(os.DirFS(d), "/") }},
+		} {
+			rd := filepath.Join(dir, fmt.Sprintf("refused-%s-%d", engine, mi))
+			os.MkdirAll(filepath.Join(rd, "d"), 0o755)
+			os.WriteFile(filepath.Join(rd, "f.txt"), []byte("file"), 0o644)
+			mod, err := rt.InstantiateModule(ctx, cm, wazero.NewModuleConfig().WithName(fmt.Sprintf("refused%d", mi)).WithFSConfig(mk.fsc(rd)))
+			if err != nil {
+				hx.Fatal("mounts stage (%s): %v", mk.name, err)
+			}
+			mem := mod.Memory()
+			call := func(fn string, args ...uint64) string {
+				out, err := mod.ExportedFunction("c_"+fn).Call(ctx, args...)
+				if err != nil {
+					return "HOST ERROR " + firstLines(err.Error(), 1)
+				}
+				return fmt.Sprintf("errno %d", uint32(out[0]))
+			}
+			open := func(p string, oflags uint64) uint64 {
+				mem.Write(1024, []byte(p))
+				mem.WriteUint32Le(2048, 0xdeadbeef)
+				call("path_open", 3, 0, 1024, uint64(len(p)), oflags, 0x1fffffff&^0x40, 0x1fffffff&^0x40, 0, 2048)
+				fd, _ := mem.ReadUint32Le(2048)
+				return uint64(fd)
+			}
+			ffd := open("f.txt", 0) // 4
+			dfd := open("d", 2)     // 5
+			probe := func() string {
+				var out []string
+				for _, fd := range []uint64{3, ffd, dfd} {
+					out = append(out, fmt.Sprintf("fd%d: filestat=%s fdstat=%s", fd, call("fd_filestat_get", fd, 8192), call("fd_fdstat_get", fd, 8192)))
+				}
+				for _, fd := range []uint64{3, dfd} {
+					out = append(out, fmt.Sprintf("fd%d: readdir=%s sync=%s", fd, call("fd_readdir", fd, 4096, 2048, 0, 8), call("fd_sync", fd)))
+				}
+				out = append(out, fmt.Sprintf("fd%d: tell=%s", ffd, call("fd_tell", ffd, 8)))
+				return strings.Join(out, " | ")
+			}
+			refused := []struct {
+				name string
+				args []uint64
+			}{
+				{"fd_renumber", []uint64{ffd, 3}}, {"fd_renumber", []uint64{3, ffd}}, {"fd_renumber", []uint64{dfd, 3}}, {"fd_renumber", []uint64{ffd, 0}},
+				{"fd_read", []uint64{3, 3000, 0, 8}}, {"fd_write", []uint64{3, 3000, 0, 8}}, {"fd_pread", []uint64{dfd, 3000, 0, 0, 8}},
+				{"fd_filestat_set_size", []uint64{3, 0}}, {"fd_allocate", []uint64{dfd, 0, 10}}, {"fd_seek", []uint64{3, 0, 0, 8}},
+				{"fd_renumber", []uint64{77, 3}}, {"fd_renumber", []uint64{ffd, 0xffffffff}},
+			}
+			for _, rc := range refused {
+				before := probe()
+				res := call(rc.name, rc.args...)
+				after := probe()
+				rep.Case(fmt.Sprintf("mounts-refused/%s/%s/%s%v", engine, mk.name, rc.name, rc.args))
+				if res != "errno 0" && before != after {
+					rep.Violate(hx.Violation{Kind: "impl-violation", Signature: "C15:refused-call-damages-a-descriptor:" + rc.name,
+						What:  fmt.Sprintf("%s, %s: %s%v answered %s (nothing done) and afterwards the descriptors 3 (pre-open), %d (file), %d (directory) answer their probes differently", engine, mk.name, rc.name, rc.args, res, ffd, dfd),
+						Input: map[string]any{"stage": "other mounts / refused calls", "engine": engine, "mount": mk.name, "call": rc.name, "args": rc.args}, Expected: before, Actual: after})
+					break
+				}
+				rep.Count("mounts-refused:" + res)
+			}
+			mod.Close(ctx)
 		}
 		rt.Close(ctx)
 	}
